@@ -164,10 +164,15 @@ def _worker_chunk(args):
             except Violation as e:   # engines may raise instead of returning
                 out = new_outcome()
                 out["violation"] = e.v
-            except Exception:
-                agg["errors"].append(dict(index=i, run_seed=rs,
-                                          tb=traceback.format_exc()[-3000:]))
-                break
+            except Exception as ex:
+                lv = library_exception(mod.ID, ex)
+                if lv is None:
+                    agg["errors"].append(dict(
+                        index=i, run_seed=rs,
+                        tb=traceback.format_exc()[-3000:]))
+                    break
+                out = new_outcome()
+                out["violation"] = lv
             agg["runs"] += 1
             agg["steps"] += out.get("steps", 0)
             agg["ops"] += out.get("ops", 0)
@@ -273,6 +278,29 @@ def run_batch(mod, tier, seed, runs, wall, workers=None, chunk=None,
 
 # -------------------------------------------------------------- minimiser --
 
+def library_exception(prop, ex):
+    """An exception that escaped from `execute` is a harness error - unless
+    it was *raised inside the library* (innermost traceback frame under
+    REPO/src) while the harness was making valid use of it (building a key
+    from an in-range scalar, serialising, ...): that is the library failing,
+    and is reported as a violation of the property being checked."""
+    tb = ex.__traceback__
+    last = None
+    while tb is not None:
+        last = tb
+        tb = tb.tb_next
+    if last is None:
+        return None
+    fn = os.path.realpath(last.tb_frame.f_code.co_filename)
+    if not fn.startswith(os.path.realpath(os.path.join(REPO, "src")) + os.sep):
+        return None
+    return violation(prop, "library-exception", "%s-%s" % (
+        type(ex).__name__, last.tb_frame.f_code.co_name),
+        "valid use of the library raised %s(%s) in %s:%d" % (
+            type(ex).__name__, str(ex)[:200], os.path.basename(fn),
+            last.tb_lineno))
+
+
 def execute_any(mod, prog):
     """Execute a program, or - for {"multi": [...]} - a sequence of programs
     in this one process (a history across runs: hidden process-global state
@@ -280,11 +308,7 @@ def execute_any(mod, prog):
     if isinstance(prog, dict) and "multi" in prog:
         out = new_outcome()
         for p in prog["multi"]:
-            try:
-                out = mod.execute(p)
-            except Violation as e:
-                out = new_outcome()
-                out["violation"] = e.v
+            out = execute_any(mod, p)
             if out.get("violation"):
                 return out
         return out
@@ -293,6 +317,13 @@ def execute_any(mod, prog):
     except Violation as e:
         out = new_outcome()
         out["violation"] = e.v
+        return out
+    except Exception as ex:
+        lv = library_exception(mod.ID, ex)
+        if lv is None:
+            raise
+        out = new_outcome()
+        out["violation"] = lv
         return out
 
 
